@@ -65,6 +65,7 @@ OtherClass ==
      dep5_and_nested_toml |-> "invalid", covered_terminator_run |-> "valid",
      template_raises |-> "grey", template_undefined |-> "grey", template_garbles_expression |-> "grey", dot_license_is_directory |-> "grey",
      licenses_same_identifier |-> "invalid",     \* LICENSES/MIT.txt next to LICENSES/MIT.md: a conflict of the project's set-up
+     two_files_fail_annotate |-> "valid", three_files_fail_annotate |-> "valid",   \* nothing wrong with the configuration
      repository_test |-> "grey" ]     \* inputs of the repository's own tests: only the exit-status discipline is demanded
 
 (* the requirement on one observed run *)
